@@ -177,6 +177,17 @@ func reifyInto(opts *options, to reflect.Value, from *Config) Error {
 
 	switch k {
 	case reflect.Map:
+		if to.Kind() != reflect.Map {
+			// a nil pointer on the way to the map (Unpack(&pm) with pm a nil
+			// *map): allocate like for lists
+			fopts := fieldOptions{opts: opts, tag: tagOptions{}, validators: nil}
+			v, err := reifyMergeValue(fopts, to, cfgSub{from})
+			if err != nil {
+				return err
+			}
+			to.Set(pointerize(to.Type(), v.Type(), v))
+			return nil
+		}
 		return reifyMap(opts, to, from, nil)
 	case reflect.Struct:
 		return reifyStruct(opts, to, from)
